@@ -105,6 +105,21 @@ pub fn run_case(t: &mut Toks) -> Vec<i128> {
     }
     let waker = Waker::from(Arc::new(NoopWake));
     let mut cx = Context::from_waker(&waker);
+    // the same service instance first serves a request for another resource (which has no rule): what follows
+    // must still be checked and accounted on its own resource
+    {
+        let other = format!("tw{}_other", tag);
+        let _ = guarded(|| {
+            let mut fut = svc.call(Req { res: other, kind: 0 });
+            for _ in 0..10 {
+                if let Poll::Ready(_) = fut.as_mut().poll(&mut cx) {
+                    break;
+                }
+            }
+        });
+        calls.store(0, Ordering::SeqCst);
+        polls.store(0, Ordering::SeqCst);
+    }
     while !t.done() {
         let (kind, drop_it) = (t.u64(), t.u64());
         let c0 = calls.load(Ordering::SeqCst);
